@@ -21,7 +21,7 @@ type C15Case struct {
 }
 
 var c15Kinds = []string{"absent", "present-valid", "present-garbage", "unwritable-EACCES", "unwritable-EROFS",
-	"dir-at-output", "log-unwritable", "log-is-dir", "mid-write", "stat-src-error", "open-EMFILE", "commit-error", "output-links-to-setup", "stdout-unwritable"}
+	"dir-at-output", "log-unwritable", "log-is-dir", "mid-write", "stat-src-error", "open-EMFILE", "commit-error", "output-links-to-setup", "stdout-unwritable", "interrupted"}
 
 var outVariants = []string{"same-dir", "subdir", "other-pkg", "outside", "parent-missing", "abs-same-dir", "dotdot-outside"}
 
@@ -153,7 +153,25 @@ func genC15(cfg Config, ws *WorldSet, i, perWorld int) C15Case {
 			if r.Bool() {
 				present()
 			}
-			plan.Faults = append(plan.Faults, sim.Fault{Op: "OUTPUT-COMMIT", Path: iv.OutPath, Kind: "err", Errno: sim.Pick(r, []string{"EACCES", "EIO", "ENOSPC"})})
+			plan.Faults = append(plan.Faults, sim.Fault{Op: "OUTPUT-COMMIT", Path: iv.OutPath, Kind: "err", Errno: sim.Pick(r, []string{"EACCES", "EIO", "ENOSPC", "EXDEV", "EBUSY"})})
+		case "interrupted":
+			// a signal the process may catch (ctrl-C, make's or a supervisor's TERM, a
+			// closed terminal) arrives at one point of the run: on entry, while the
+			// package is being loaded, or when everything is ready to be written.
+			// However the run ends then, if it ends in an error the output path must be
+			// as it was
+			if r.Chance(2, 3) {
+				present()
+			}
+			sig := sim.Pick(r, []string{"sigint", "sigint", "sigterm", "sighup"})
+			switch r.Intn(3) {
+			case 0:
+				plan.Faults = append(plan.Faults, sim.Fault{Op: "Stat", Path: setup, Nth: 1, Kind: sig})
+			case 1:
+				plan.Faults = append(plan.Faults, sim.Fault{Op: "Stat", Path: setup, Nth: 2, Kind: sig})
+			case 2:
+				plan.Faults = append(plan.Faults, sim.Fault{Op: "OUTPUT-OPEN", Path: iv.OutPath, Kind: sig})
+			}
 		case "stat-src-error":
 			if r.Bool() {
 				present()
